@@ -491,6 +491,12 @@ func (u *upstream) serveBolt(c net.Conn, id int64) {
 				}
 				switch a.final {
 				case "stall":
+					if a.goaway {
+						// the connection is announced as going away and the request is never answered (the proxy's timeout ends it)
+						wmu.Lock()
+						_, _ = c.Write(buildBolt(boltFields{V2: f.V2, Ver1: f.Ver1, CmdType: 1, CmdCode: 100, Ver: f.Ver, ID: 0, Codec: f.Codec}))
+						wmu.Unlock()
+					}
 					return
 				case "close":
 					c.Close()
